@@ -1148,6 +1148,10 @@ func (interp *Interpreter) cfg(root *node, sc *scope, importPath, pkgName string
 				err = n.cfgErrorf("invalid operation: cannot send to non-channel %s", n.child[0].typ.id())
 				break
 			}
+			if t := n.child[0].typ; t.cat == chanRecvT || t.cat == valueT && t.rtype.ChanDir() == reflect.RecvDir {
+				err = n.cfgErrorf("invalid operation: cannot send to receive-only channel %s", t.id())
+				break
+			}
 			fallthrough
 
 		case declStmt, exprStmt:
